@@ -1,4 +1,5 @@
 import Zc.Model.Link
+import Zc.Model.LinkBridge
 /-! The timing parameters computed from today's source constants are the numbers of the English property
 (DESIGN §7 C07: 350/575/800 ms announcements, 125 ms goodbyes, 20–120 ms first query, +1 s/+5 s/+14 s start-up
 queries, 999 ms duplicate-question window, answers within 1200 ms). -/
@@ -6,5 +7,25 @@ namespace Zc.GenFacts.Link
 open Zc.Link
 
 theorem cfg_gen_eq : Cfg.gen = Cfg.paper := by decide
+
+/-! ### routes: what a host sends on its own initiative goes to the multicast group
+
+`_async_broadcast_service`, `async_unregister_all_services` and `MulticastOutgoingQueue.async_ready` call `async_send` with the
+packet alone; `async_send`'s `addr` defaults to `None`; `async_send_with_transport` sends a datagram without address to the group. -/
+
+theorem mcastCall_broadcast : Zc.Bridge.mcastCall Gen.Link.broadcast_send_nargs = true := by decide
+theorem mcastCall_unregister_all : Zc.Bridge.mcastCall Gen.Link.unregister_all_send_nargs = true := by decide
+theorem mcastCall_queue_ready : Zc.Bridge.mcastCall Gen.Link.queue_ready_send_nargs = true := by decide
+
+/-- the blocks of the C08/C09 machine that send on the host's own initiative send to the multicast group -/
+theorem dstOf_task (oid : Nat) (ttl : Option Nat) (ad : Bool) (due : Int) (x : Option Nat) :
+    Zc.Bridge.dstOf (.task oid ttl ad due) x = none := by
+  simp only [Zc.Bridge.dstOf, mcastCall_broadcast, if_true]
+theorem dstOf_unregisterAll (now : Int) (x : Option Nat) : Zc.Bridge.dstOf (.unregisterAll now) x = none := by
+  simp only [Zc.Bridge.dstOf, mcastCall_unregister_all, if_true]
+theorem dstOf_allStep (due : Int) (x : Option Nat) : Zc.Bridge.dstOf (.allStep due) x = none := by
+  simp only [Zc.Bridge.dstOf, mcastCall_unregister_all, if_true]
+theorem dstOf_ready (d : Bool) (now : Int) (x : Option Nat) : Zc.Bridge.dstOf (.ready d now) x = none := by
+  simp only [Zc.Bridge.dstOf, mcastCall_queue_ready, if_true]
 
 end Zc.GenFacts.Link
